@@ -31,14 +31,52 @@ theorem fileName_inj_prefix (pre pre' pid : Str) (h : fileName pre pid = fileNam
   rw [fileName_eq, fileName_eq] at h
   exact List.append_cancel_right h
 
-/-- the state invariant: bindings, coherent caches, one value object per (prefix, key) -/
+/-- (prefix, key) of every value object of the acting worker, in construction order -/
+def idsOf (st : St V) : List (Str × Key) := st.values.map (fun v => idOf v.params)
+
+/-- index `i` holds the YOUNGEST value object on its (prefix, key): no object constructed later shares it.
+    (After `remove()`/`clear()` + `labels()` the re-created child is the youngest; the dropped one is stale.) -/
+def IsLast (ids : List (Str × Key)) (i : Nat) : Prop := ∀ j a, i < j → ids[j]? = some a → ids[i]? ≠ some a
+
+/-- the youngest object on each (prefix, key) caches what its file holds (stale objects may not) -/
+def CachedL (vo : VOps V) (st : St V) : Prop :=
+  ∀ i v, st.values[i]? = some v → IsLast (idsOf st) i → cellVal vo st.disk v.file v.key = (v.value, v.ts)
+
+/-- the state invariant: bindings, and coherent caches of the youngest object on every key -/
 structure Inv (vo : VOps V) (st : St V) : Prop where
   bound : Bound st
-  cached : Cached vo st
-  uniq : (st.values.map (fun v => idOf v.params)).Nodup
+  cached : CachedL vo st
+
+/-- what a history must respect: only the youngest value object on a (prefix, key) is ever UPDATED.  A stale object
+    (dropped child, shadowed metric) may stay in `values` and is re-bound on identity changes — it re-reads, never writes. -/
+def OpOK (ids : List (Str × Key)) : Op V → Prop
+  | .inc i _ => IsLast ids i
+  | .set i _ _ => IsLast ids i
+  | _ => True
+
+theorem isLast_of_append (l : List (Str × Key)) (a : Str × Key) (j : Nat) (hj : j < l.length)
+    (h : IsLast (l ++ [a]) j) : IsLast l j := by
+  intro k b hk hb
+  have hk' : k < l.length := by
+    have := List.getElem?_eq_some_iff.mp hb; exact this.1
+  have h1 : (l ++ [a])[k]? = some b := by rw [List.getElem?_append, if_pos hk']; exact hb
+  have := h k b hk h1
+  rw [List.getElem?_append, if_pos hj] at this
+  exact this
+
+theorem mem_set_list' {α : Type} (l : List α) (i : Nat) (a x : α) (h : x ∈ l.set i a) : x = a ∨ x ∈ l := by
+  obtain ⟨j, hj⟩ := List.mem_iff_getElem?.mp h
+  rw [List.getElem?_set] at hj
+  by_cases hij : i = j
+  · simp only [hij, if_true] at hj
+    split at hj
+    · exact Or.inl (Option.some.inj hj).symm
+    · cases hj
+  · simp only [hij, if_false] at hj
+    exact Or.inr (List.mem_iff_getElem?.mpr ⟨j, hj⟩)
 
 theorem inv_init (vo : VOps V) (actual : Str) : Inv vo (St.init (V := V) actual) :=
-  ⟨bound_init actual, cached_init vo actual, by simp [St.init]⟩
+  ⟨bound_init actual, fun i v hv _ => by simp [St.init] at hv⟩
 
 /-- parameters appended by an op -/
 def newParams : Op V → List Params
@@ -92,9 +130,9 @@ theorem step_pid (vo : VOps V) (st : St V) (op : Op V) (hb : Bound st) :
     cases (checkPid vo st).values[i]? <;> exact ⟨hc.actual, hc.pid⟩
   | get i => exact ⟨hc.actual, hc.pid⟩
 
-/-- a write through value object `v` of a coherent state: everything about the new state -/
+/-- a write through the youngest value object `v` on its key, in a coherent state: everything about the new state -/
 theorem write_post (vo : VOps V) (st1 : St V) (h1 : Inv vo st1) (i : Nat) (v : ValueObj V) (hv : st1.values[i]? = some v)
-    (x t : V) :
+    (hlast : IsLast (idsOf st1) i) (x t : V) :
     let st2 : St V := ⟨st1.pid, st1.files, st1.values.set i ⟨v.params, x, t, v.file, v.key⟩,
       writeValue st1.disk v.file v.key x t, st1.actual⟩
     Inv vo st2 ∧
@@ -109,30 +147,15 @@ theorem write_post (vo : VOps V) (st1 : St V) (h1 : Inv vo st1) (i : Nat) (v : V
     split <;> rfl
   have hmemv : v ∈ st1.values := List.mem_iff_getElem?.mpr ⟨i, hv⟩
   have hbv := h1.bound.bound v hmemv
-  -- members of the updated list
-  have hmem : ∀ w ∈ st2.values, (w = (⟨v.params, x, t, v.file, v.key⟩ : ValueObj V)) ∨
-      (w ∈ st1.values ∧ idOf w.params ≠ idOf v.params) := by
-    intro w hw
-    obtain ⟨j, hj⟩ := List.mem_iff_getElem?.mp hw
-    show w = _ ∨ _
-    have hj' : (st1.values.set i (⟨v.params, x, t, v.file, v.key⟩ : ValueObj V))[j]? = some w := hj
-    rw [List.getElem?_set] at hj'
-    by_cases hij : i = j
-    · simp only [hij, if_true] at hj'
-      split at hj'
-      · left; exact (Option.some.inj hj').symm
-      · cases hj'
-    · simp only [hij, if_false] at hj'
-      right
-      refine ⟨List.mem_iff_getElem?.mpr ⟨j, hj'⟩, ?_⟩
-      have e1 : (st1.values.map (fun v => idOf v.params))[j]? = some (idOf w.params) := by
-        rw [List.getElem?_map, hj']; rfl
-      have e2 : (st1.values.map (fun v => idOf v.params))[i]? = some (idOf v.params) := by
-        rw [List.getElem?_map, hv]; rfl
-      exact nodup_getElem?_ne _ h1.uniq j i _ _ e1 e2 (Ne.symm hij)
-  refine ⟨⟨⟨h1.bound.files, ?_, ?_⟩, ?_, ?_⟩, hcell, ?_⟩
+  have hidv : (idsOf st1)[i]? = some (idOf v.params) := by
+    unfold idsOf; rw [List.getElem?_map, hv]; rfl
+  have hids : idsOf st2 = idsOf st1 := by
+    show (st1.values.set i (⟨v.params, x, t, v.file, v.key⟩ : ValueObj V)).map (fun v => idOf v.params) = _
+    rw [List.map_set]
+    exact set_getElem?_self' _ _ _ hidv
+  refine ⟨⟨⟨h1.bound.files, ?_, ?_⟩, ?_⟩, hcell, ?_⟩
   · intro w hw
-    rcases hmem w hw with e | ⟨e, _⟩
+    rcases mem_set_list' _ _ _ _ hw with e | e
     · subst e; exact hbv
     · exact h1.bound.bound w e
   · intro w hw
@@ -140,64 +163,79 @@ theorem write_post (vo : VOps V) (st1 : St V) (h1 : Inv vo st1) (i : Nat) (v : V
     rw [cellGet_writeValue]
     split
     · rfl
-    · rcases hmem w hw with e | ⟨e, _⟩
+    · rcases mem_set_list' _ _ _ _ hw with e | e
       · subst e; exact h1.bound.exist v hmemv
       · exact h1.bound.exist w e
-  · intro w hw
+  · intro j w hj hl
+    rw [hids] at hl
     rw [hcell]
-    rcases hmem w hw with e | ⟨e, hne⟩
-    · subst e; simp
-    · have hbw := h1.bound.bound w e
+    have hj' : (st1.values.set i (⟨v.params, x, t, v.file, v.key⟩ : ValueObj V))[j]? = some w := hj
+    rw [List.getElem?_set] at hj'
+    by_cases hij : i = j
+    · simp only [hij, if_true] at hj'
+      split at hj'
+      · have := (Option.some.inj hj').symm; subst this; simp
+      · cases hj'
+    · simp only [hij, if_false] at hj'
+      have hmw : w ∈ st1.values := List.mem_iff_getElem?.mpr ⟨j, hj'⟩
+      have hbw := h1.bound.bound w hmw
+      have hidw : (idsOf st1)[j]? = some (idOf w.params) := by
+        unfold idsOf; rw [List.getElem?_map, hj']; rfl
       have : ¬ (v.file = w.file ∧ v.key = w.key) := by
         rintro ⟨e1, e2⟩
-        apply hne
-        unfold idOf
-        rw [hbv.2, hbw.2] at e1
-        rw [hbv.1, hbw.1] at e2
-        rw [fileName_inj_prefix _ _ _ e1, e2]
+        have hid : idOf w.params = idOf v.params := by
+          unfold idOf
+          rw [hbv.2, hbw.2] at e1
+          rw [hbv.1, hbw.1] at e2
+          rw [fileName_inj_prefix _ _ _ e1, e2]
+        rcases Nat.lt_or_gt_of_ne hij with hlt | hgt
+        · exact hlast j _ hlt hidw (hid ▸ hidv)
+        · exact hl i _ hgt hidv (hid ▸ hidw)
       rw [if_neg this]
-      exact h1.cached w e
-  · show ((st1.values.set i (⟨v.params, x, t, v.file, v.key⟩ : ValueObj V)).map (fun v => idOf v.params)).Nodup
-    rw [List.map_set]
-    have : (st1.values.map (fun v => idOf v.params))[i]? = some (idOf v.params) := by
-      rw [List.getElem?_map, hv]; rfl
-    rw [set_getElem?_self' _ _ _ this]
-    exact h1.uniq
+      exact h1.cached j w hj' hl
   · intro fn hne
     exact file_writeValue _ _ fn _ _ _ (Ne.symm hne)
+
+theorem idsOf_check (vo : VOps V) (st : St V) (hb : Bound st) : idsOf (checkPid vo st) = idsOf st := by
+  have := congrArg (List.map idOf) (checkPid_post vo st hb).params
+  rw [List.map_map, List.map_map] at this
+  exact this
+
+theorem checkPid_same (vo : VOps V) (st : St V) (h : st.pid = st.actual) : checkPid vo st = st := by
+  unfold checkPid; simp [h]
 
 /-- the state after `__check_for_pid_change` is coherent -/
 theorem check_inv (vo : VOps V) (st : St V) (h : Inv vo st) : Inv vo (checkPid vo st) := by
   have hc := checkPid_post vo st h.bound
-  refine ⟨hc.bound, hc.cached (Or.inr h.cached), ?_⟩
-  have : (checkPid vo st).values.map (fun v => idOf v.params) = st.values.map (fun v => idOf v.params) := by
-    have := congrArg (List.map idOf) hc.params
-    rw [List.map_map, List.map_map] at this
-    exact this
-  rw [this]; exact h.uniq
+  refine ⟨hc.bound, ?_⟩
+  by_cases hp : st.pid = st.actual
+  · rw [checkPid_same vo st hp]; exact h.cached
+  · intro i v hv _
+    exact hc.cached (Or.inl hp) v (List.mem_iff_getElem?.mpr ⟨i, hv⟩)
 
-/-- **invariant preservation** (the only proviso: a constructed object does not duplicate a live (prefix, key)) -/
-theorem step_inv (vo : VOps V) (st : St V) (op : Op V) (h : Inv vo st)
-    (hu : ((step vo st op).1.values.map (fun v => idOf v.params)).Nodup) : Inv vo (step vo st op).1 := by
+/-- **invariant preservation** (proviso: an update goes through the youngest value object on its key) -/
+theorem step_inv (vo : VOps V) (st : St V) (op : Op V) (h : Inv vo st) (hok : OpOK (idsOf st) op) :
+    Inv vo (step vo st op).1 := by
   have hc := checkPid_post vo st h.bound
   have h1 := check_inv vo st h
+  have hids := idsOf_check vo st h.bound
   cases op with
-  | setPid p => exact ⟨⟨h.bound.files, h.bound.bound, h.bound.exist⟩, h.cached, h.uniq⟩
+  | setPid p => exact ⟨⟨h.bound.files, h.bound.bound, h.bound.exist⟩, h.cached⟩
   | get i => exact h1
   | inc i a =>
     simp only [step]
     cases hv : (checkPid vo st).values[i]? with
     | none => exact h1
-    | some v => exact (write_post vo _ h1 i v hv _ _).1
+    | some v => exact (write_post vo _ h1 i v hv (hids ▸ hok) _ _).1
   | set i x t =>
     simp only [step]
     cases hv : (checkPid vo st).values[i]? with
     | none => exact h1
-    | some v => exact (write_post vo _ h1 i v hv _ _).1
+    | some v => exact (write_post vo _ h1 i v hv (hids ▸ hok) _ _).1
   | construct p =>
     have hr := reset_post vo (checkPid vo st).pid (checkPid vo st).files (checkPid vo st).disk p h1.bound.files
-    simp only [step] at hu ⊢
-    refine ⟨⟨hr.files, ?_, ?_⟩, ?_, hu⟩
+    simp only [step]
+    refine ⟨⟨hr.files, ?_, ?_⟩, ?_⟩
     · intro w hw
       rcases List.mem_append.mp hw with e | e
       · exact h1.bound.bound w e
@@ -208,11 +246,32 @@ theorem step_inv (vo : VOps V) (st : St V) (op : Op V) (h : Inv vo st)
       · exact hr.persists _ _ (h1.bound.exist w e)
       · simp only [List.mem_singleton] at e; subst e
         rw [hr.cached]; rfl
-    · intro w hw
-      rcases List.mem_append.mp hw with e | e
-      · show cellVal vo (reset vo _ _ _ p).2.2 w.file w.key = _
-        rw [hr.cellval]; exact h1.cached w e
-      · simp only [List.mem_singleton] at e; subst e
+    · intro j w hj hl
+      have hj' : ((checkPid vo st).values ++ [(reset vo (checkPid vo st).pid (checkPid vo st).files (checkPid vo st).disk p).1])[j]?
+          = some w := hj
+      have hidsn : idsOf (⟨(checkPid vo st).pid, (reset vo (checkPid vo st).pid (checkPid vo st).files (checkPid vo st).disk p).2.1,
+          (checkPid vo st).values ++ [(reset vo (checkPid vo st).pid (checkPid vo st).files (checkPid vo st).disk p).1],
+          (reset vo (checkPid vo st).pid (checkPid vo st).files (checkPid vo st).disk p).2.2, (checkPid vo st).actual⟩ : St V)
+          = idsOf (checkPid vo st) ++ [idOf (reset vo (checkPid vo st).pid (checkPid vo st).files (checkPid vo st).disk p).1.params] := by
+        simp [idsOf]
+      rw [List.getElem?_append] at hj'
+      by_cases hlt : j < (checkPid vo st).values.length
+      · rw [if_pos hlt] at hj'
+        show cellVal vo (reset vo _ _ _ p).2.2 w.file w.key = _
+        rw [hr.cellval]
+        apply h1.cached j w hj'
+        apply isLast_of_append _ _ j (by simpa [idsOf] using hlt)
+        have := hl
+        rw [show idsOf _ = _ from hidsn] at this
+        exact this
+      · rw [if_neg hlt] at hj'
+        have : j - (checkPid vo st).values.length = 0 := by
+          cases hjj : j - (checkPid vo st).values.length with
+          | zero => rfl
+          | succ n => rw [hjj] at hj'; simp at hj'
+        rw [this] at hj'
+        simp only [List.getElem?_cons_zero, Option.some.injEq] at hj'
+        subst hj'
         show cellVal vo (reset vo _ _ _ p).2.2 _ _ = _
         unfold cellVal
         rw [hr.cached]; rfl
@@ -220,7 +279,7 @@ theorem step_inv (vo : VOps V) (st : St V) (op : Op V) (h : Inv vo st)
 /-- **frame lemma**: the effect of one op on every cell.  Only `inc`/`set` move a cell, and only the cell
     `(file of the object's prefix under the CURRENT identity, the object's key)`; an increment continues from what that
     cell already holds. -/
-theorem step_cell (vo : VOps V) (st : St V) (op : Op V) (h : Inv vo st) (fn : Str) (k : Key) :
+theorem step_cell (vo : VOps V) (st : St V) (op : Op V) (h : Inv vo st) (hok : OpOK (idsOf st) op) (fn : Str) (k : Key) :
     cellVal vo (step vo st op).1.disk fn k =
       match op with
       | .inc i a =>
@@ -263,8 +322,9 @@ theorem step_cell (vo : VOps V) (st : St V) (op : Op V) (h : Inv vo st) (fn : St
         have hpar : v1.params = v.params := Option.some.inj hp
         have hm : v1 ∈ (checkPid vo st).values := List.mem_iff_getElem?.mpr ⟨i, hv⟩
         have hb := h1.bound.bound v1 hm
-        have hcv := h1.cached v1 hm
-        rw [(write_post vo _ h1 i v1 hv _ _).2.1 fn k]
+        have hl1 : IsLast (idsOf (checkPid vo st)) i := (idsOf_check vo st h.bound) ▸ hok
+        have hcv := h1.cached i v1 hv hl1
+        rw [(write_post vo _ h1 i v1 hv hl1 _ _).2.1 fn k]
         simp only
         rw [hb.1, hb.2, hc.pid, hpar]
         split
@@ -292,7 +352,7 @@ theorem step_cell (vo : VOps V) (st : St V) (op : Op V) (h : Inv vo st) (fn : St
         have hpar : v1.params = v.params := Option.some.inj hp
         have hm : v1 ∈ (checkPid vo st).values := List.mem_iff_getElem?.mpr ⟨i, hv⟩
         have hb := h1.bound.bound v1 hm
-        rw [(write_post vo _ h1 i v1 hv _ _).2.1 fn k]
+        rw [(write_post vo _ h1 i v1 hv ((idsOf_check vo st h.bound) ▸ hok) _ _).2.1 fn k]
         simp only
         rw [hb.1, hb.2, hc.pid, hpar]
         split
